@@ -1,8 +1,13 @@
 """C08 - feedback delivers each value exactly one smallest time step later; passive loops become quiescent."""
 import random
 
+import json
+
+import coll
 import dataflow
 import gen_dataflow
+import ho
+import oracle_coll as oc
 import oracle_dataflow as od
 import runner
 from framework import Outcome
@@ -22,10 +27,92 @@ class C08:
             "(t, v) recorded at the bound producer port] restricted to the window (no loss, duplicate, reorder, same-cycle observation); a loop closed "
             "only through passive readers is quiescent one MIN_TD after its last external input; the whole run equals the reference interpreter. "
             "non-trivial = at least 2 deliveries; distinct = distinct (shape, delivery times)")
-    assumptions = ["TS<Int> feedback only in this mode; collection-shaped feedback is exercised by the collections-mode checks"]
+    assumptions = ["a quarter of the cases are feedback edges of TSS / TSD / TSB / TS shape with scripted writers: there the reader's per-tick delta stream is compared with the writer's, one MIN_TD later",
+                   "ticks whose structural delta is empty are excluded from that comparison (known finding F5, owned by C20)"]
+
+    def gen_coll(self, rng):
+        """feedback of collection shapes: the reader's delta stream is the writer's, one step later"""
+        end = rng.choice((10, 16))
+        writers, stmts, pairs = [], [], []
+        for i in range(rng.randint(1, 2)):
+            shape = rng.choice(("TSS", "TSD", "TS", "TSB"))
+            wid = i + 1
+            w = coll.gen_writer(rng, wid, shape, end)
+            for off in w["script"]:
+                w["script"][off] = [o for o in w["script"][off] if o[0] != "inv"] or [["d", coll.jd(coll.gen_delta(coll.SHAPES[shape], coll.fresh(coll.SHAPES[shape]), rng))]]
+            writers.append(w)
+            init = None
+            if rng.random() < 0.5:
+                init = coll.gen_delta(coll.SHAPES[shape], coll.fresh(coll.SHAPES[shape]), rng)
+            fid = 10 * wid
+            stmts.append("fbk %d src=%d%s" % (fid, wid, " init=" + coll.jd(init) if init is not None else ""))
+            stmts.append("cons %d %d" % (fid + 1, fid))
+            stmts.append("cons %d %d" % (fid + 2, wid))
+            pairs.append(dict(fb=fid + 1, prod=fid + 2, init=init, shape=shape))
+        return dict(kind="coll", sc=dict(window=(0, end), writers=writers, stmts=stmts), pairs=pairs)
+
+    def run_coll(self, case, fresh):
+        sc = ho.normalise(case["sc"])
+        text = ho.emit(sc)
+        res = runner.run_fresh(text, san=self.san) if fresh else runner.run(text, san=self.san)
+        if not res.ok:
+            return Outcome(harness_error="harness status=%s signal=%s timeout=%s tail=%s" % (res.status, res.signal, res.timeout, res.raw[-300:]), sample=text)
+        for e in res.events:
+            if e["k"] in ("wire_error", "harness_error"):
+                return Outcome(harness_error="%s: %s" % (e["k"], e.get("what")), sample=text)
+        sample = dict(scenario=text, log_head=res.raw[:1000])
+        ran = [e for e in res.events if e["k"] == "ran"]
+        if not ran or ran[0]["run"] != "ok":
+            return Outcome(violation=dict(clause="run_threw", detail=ran[0].get("what", "")[:400] if ran else "no ran event"), digest=res.digest, sample=sample)
+        end = sc["window"][1]
+        C, Cfull = {}, {}
+        for e in res.events:
+            if e["k"] == "C" and e["i"] is not None:
+                C.setdefault(e["id"], []).append((e["t"], oc.canon(e["i"].get("d"))))
+                Cfull.setdefault(e["id"], []).append((e["t"], e["i"]))
+        v = None
+        deliveries = 0
+        wids = {w["id"] for w in sc["writers"]}
+        for p in case["pairs"]:
+            if (p["prod"] - 2) // 10 not in wids:
+                continue
+            shape = coll.SHAPES[p["shape"]]
+            W = C.get(p["prod"], [])
+            Dv = {t: i for (t, i) in Cfull.get(p["fb"], [])}
+            replica = coll.fresh(shape)
+            due = {}
+            if p["init"] is not None:
+                due[0] = p["init"]
+            for (t, d) in W:
+                if t + 1 < end:
+                    due[t + 1] = d
+            deliveries += len(Dv)
+            for t in sorted(set(due) | set(Dv)):
+                if t in Dv and t not in due:
+                    v = ("feedback_unexpected_tick", "%s feedback reader ticked at %d; the producer ticked at %s" % (p["shape"], t, [x for (x, _) in W]))
+                    break
+                before = oc.model_norm(shape, replica)
+                replica = coll.apply(shape, replica, json.loads(json.dumps(due[t])))
+                after = oc.model_norm(shape, replica)
+                if t not in Dv:
+                    if oc.strip_empty(before) != oc.strip_empty(after):
+                        v = ("feedback_lost", "%s feedback: the value written at %d (delta %s) never reached the reader at %d" % (p["shape"], t - 1, due[t], t))
+                        break
+                    continue
+                got = oc.norm_value(shape, Dv[t]["val"], Dv[t].get("ch")) if Dv[t]["v"] else None
+                if oc.strip_empty(got) != oc.strip_empty(after):
+                    v = ("feedback_value", "%s feedback reader at %d reads %s; the values written so far, each delivered one step later, give %s" % (p["shape"], t, Dv[t]["val"], after))
+                    break
+            if v:
+                break
+        stats = dict(deliveries=deliveries, probe_collection_feedback=1, cycles=sum(1 for e in res.events if e["k"] == "cyc" and e["g"] == 0), simulated_time_us=end)
+        return Outcome(violation=dict(clause=v[0], detail=v[1]) if v else None, stats=stats, digest=res.digest, nontrivial=deliveries >= 2, sample=sample,
+                       shape=runner.h64(text))
 
     def gen(self, seed):
         rng = random.Random(seed)
+        if rng.random() < 0.25:
+            return self.gen_coll(rng)
         g = gen_dataflow.Gen(rng, size=rng.randint(3, 18), allow=dict(how=("inline", "nested"), feedback=False))
         for _ in range(rng.randint(1, 3)):
             g.add_source()
@@ -63,6 +150,8 @@ class C08:
         return dict(prog=prog, pairs=pairs)
 
     def run(self, case, fresh=False):
+        if case.get("kind") == "coll":
+            return self.run_coll(case, fresh)
         prog = dataflow.normalise(case["prog"])
         text = dataflow.emit(prog)
         res = runner.run_fresh(text, san=self.san) if fresh else runner.run(text, san=self.san)
@@ -106,6 +195,16 @@ class C08:
                        sample=sample, shape=runner.h64(dataflow.shape_key(prog), cycles))
 
     def shrink(self, case):
+        if case.get("kind") == "coll":
+            import copy
+            sc = ho.normalise(case["sc"])
+            for i, w in enumerate(sc["writers"]):
+                for off in sorted(w["script"]):
+                    if len(w["script"]) > 1:
+                        q = copy.deepcopy(sc)
+                        del q["writers"][i]["script"][off]
+                        yield dict(case, sc=q)
+            return
         for q in dataflow.shrink_program(dataflow.normalise(case["prog"])):
             yield dict(prog=q, pairs=case.get("pairs", []))
 
